@@ -24,6 +24,13 @@ Proof. exact (qembed_unitary C k m G). Qed.
 (* a unitary similarity keeps the Frobenius norm *)
 Theorem C09_similarity_keeps_frobenius (C : CRing) (n : nat) (A P B : qmat C) : sim_inv C n A P B -> frob2 n n B = frob2 n n A.
 Proof. exact (similarity_frob2 C n A P B). Qed.
+(* ... the real part of the trace (the trace itself is not similarity-invariant over the quaternions) ... *)
+Theorem C09_similarity_keeps_real_trace (C : CRing) (n : nat) (A P B : qmat C) : sim_inv C n A P B -> retr n B = retr n A.
+Proof. exact (similarity_retr C n A P B). Qed.
+(* ... and turns the Gram matrix A^H A into the same unitary similarity of itself: H has the singular values of A *)
+Theorem C09_similarity_keeps_gram (C : CRing) (n : nat) (A P B : qmat C) : sim_inv C n A P B ->
+  meq n n (qmm n (qherm B) B) (qmm n (qmm n P (qmm n (qherm A) A)) (qherm P)).
+Proof. exact (similarity_gram C n A P B). Qed.
 (* the tolerance clean-up: never touches the Hessenberg part, moves no component by more than atol *)
 Theorem C09_cleanup_keeps_hessenberg_part (Ops : FOps) (atol : Ops) (H : fmat Ops) (i j : nat) : i <= j + 1 -> clean_hess Ops atol H i j = H i j.
 Proof. exact (clean_hess_keeps Ops atol H i j). Qed.
@@ -36,5 +43,7 @@ Print Assumptions C09_hessenbergize.
 Print Assumptions C09_column_step.
 Print Assumptions C09_embedding_unitary.
 Print Assumptions C09_similarity_keeps_frobenius.
+Print Assumptions C09_similarity_keeps_real_trace.
+Print Assumptions C09_similarity_keeps_gram.
 Print Assumptions C09_cleanup_keeps_hessenberg_part.
 Print Assumptions C09_cleanup_moves_at_most_atol.
